@@ -36,4 +36,57 @@ def pairRegistry (fScope : Scope) (fPerThread : Bool) (gScope : Scope) (gPerThre
 def pairVerdict (fScope : Scope) (fPerThread : Bool) (gScope : Scope) (gPerThread : Bool) : Verdict :=
   verdictOf (checkDependencies (pairRegistry fScope fPerThread gScope gPerThread))
 
+/-! ### what a suite uses ITSELF (injected fixture attribute, `setup_suite` argument), enabled or disabled
+
+    `FixtureRegistry.check_fixtures_in_suite` walks EVERY suite of the tree — it neither looks at `suite.disabled` /
+    `suite.is_disabled()` nor knows `--force-disabled` (the option is not an input of `PreparedProject.create`), so the
+    verdict cannot depend on them: under `--force-disabled` a disabled suite IS set up (by one thread). -/
+
+/-- where the `disabled` mark of the suite that uses the fixture comes from -/
+inductive SuiteState | enabled | disabledOwn | disabledInherited
+deriving DecidableEq, Repr
+
+/-- how the suite uses the fixture itself -/
+inductive SuiteHow | injected | setupArg
+deriving DecidableEq, Repr
+
+inductive SuiteVerdict where
+  | accepted
+  | suitePerThread      -- "Suite 's' uses per-thread fixture 'g' which is not allowed"
+  | suiteScope          -- "Suite 's' uses fixture 'g' which has an incompatible scope"
+  | other
+deriving DecidableEq, Repr
+
+def suiteVerdictOf : Except Err Unit → SuiteVerdict
+  | .ok () => .accepted
+  | .error (.suitePerThread _ _) => .suitePerThread
+  | .error (.suiteScope _ _) => .suiteScope
+  | .error _ => .other
+
+/-- the registry of a project declaring `g()` -/
+def suiteUseRegistry (gScope : Scope) (gPerThread : Bool) : Registry :=
+  builtins ++ [⟨"g", gScope, gPerThread, []⟩]
+
+/-- a suite with one test that uses `g` itself — marked `@lcc.disabled()`, nested in a suite marked so, or neither -/
+def suiteUseTree (st : SuiteState) (how : SuiteHow) : List Suite :=
+  let inj := if how = .injected then ["g"] else []
+  let args := if how = .setupArg then ["g"] else []
+  match st with
+  | .enabled => [.mk "s" false inj args [⟨"s.t", [], [], false⟩] []]
+  | .disabledOwn => [.mk "s" true inj args [⟨"s.t", [], [], false⟩] []]
+  | .disabledInherited => [.mk "p" true [] [] [] [.mk "p.s" false inj args [⟨"p.s.t", [], [], false⟩] []]]
+
+/-- what `check_fixtures_in_suites` says about it -/
+def suiteUseVerdict (st : SuiteState) (how : SuiteHow) (gScope : Scope) (gPerThread : Bool) : SuiteVerdict :=
+  suiteVerdictOf (checkFixturesInSuites (suiteUseRegistry gScope gPerThread) (suiteUseTree st how))
+
+mutual
+/-- the same suite tree with every `disabled` mark replaced (by any function of the suite's path) -/
+def relabelSuite (d : String → Bool) : Suite → Suite
+  | .mk path _ inj args tests subs => .mk path (d path) inj args tests (relabelSuites d subs)
+def relabelSuites (d : String → Bool) : List Suite → List Suite
+  | [] => []
+  | s :: rest => relabelSuite d s :: relabelSuites d rest
+end
+
 end LccModel.Fixture
